@@ -332,7 +332,7 @@ impl<'r> Gen<'r> {
                         let hi = c.hi.lit();
                         match (lo, hi) {
                             (Some(a), Some(b)) => (a, b),
-                            (Some(a), None) => (a, a.saturating_add(1000)),
+                            (Some(a), None) => (a, a.saturating_add(1000).min(i64::MAX as i128)),
                             (None, Some(b)) => (b.saturating_sub(1000).max(0).min(b), b),
                             (None, None) => {
                                 if matches!(c.lo, Bound::Ref(_)) || matches!(c.hi, Bound::Ref(_)) {
